@@ -1121,3 +1121,118 @@ func runSTEPOVER(c *Ctx) {
 		c.AnchorMissing("in-node steps (linkIndex ± 1) in the Cursor methods")
 	}
 }
+
+// ---- POSNODE --------------------------------------------------------------------------
+//
+// A path position means something only relative to its own entry's node. Comparing the position of one entry with
+// the key count of another entry's node (a local `node := pe.node` that survived `pe = &c.path[…]`) makes Forward
+// or Backward pop too far or stop on a slot without a key.
+
+func init() {
+	Register(&Rule{
+		ID:    "POSNODE",
+		Props: []string{"C10"},
+		Min:   4,
+		Doc: "in the Cursor methods, wherever a path entry's position (E.linkIndex ± k) is compared with the length of a node's Key/Value/Link list and that node was read out of a path entry (E'.node), " +
+			"E' is the same entry as E: the same pointer value, or the same element expression with no store to the path slice between the read of the node and the comparison.",
+		Run: runPOSNODE,
+	})
+}
+
+func runPOSNODE(c *Ctx) {
+	P := c.P
+	n := 0
+	// the entry a node value was read from: N = *(E.node)
+	entryOfNode := func(base ssa.Value) (ssa.Value, *ssa.UnOp) {
+		ld, ok := ir.ResolveCell(base).(*ssa.UnOp)
+		if !ok || ld.Op != token.MUL {
+			return nil, nil
+		}
+		fa, ok := ld.X.(*ssa.FieldAddr)
+		if !ok || ir.FieldName(fa.X.Type(), fa.Field) != nodeFieldName {
+			return nil, nil
+		}
+		return fa.X, ld
+	}
+	for _, fn := range P.Funcs {
+		if fn.Pkg.Pkg.Path() != ir.MastPath || fn.Signature.Recv() == nil || !ir.IsPtrToNamed(fn.Signature.Recv().Type(), "Cursor") {
+			continue
+		}
+		var pathStores []*ssa.Store
+		for _, b := range fn.Blocks {
+			for _, ins := range b.Instrs {
+				if st, ok := ins.(*ssa.Store); ok && isCursorPath(st.Addr) {
+					pathStores = append(pathStores, st)
+				}
+			}
+		}
+		for _, b := range fn.Blocks {
+			if ir.IsDead(b) {
+				continue
+			}
+			for _, ins := range b.Instrs {
+				bin, ok := ins.(*ssa.BinOp)
+				if !ok {
+					continue
+				}
+				switch bin.Op {
+				case token.LSS, token.LEQ, token.GTR, token.GEQ, token.EQL, token.NEQ:
+				default:
+					continue
+				}
+				for _, side := range [][2]ssa.Value{{bin.X, bin.Y}, {bin.Y, bin.X}} {
+					li, _, ok := liPlusK(side[0])
+					if !ok {
+						continue
+					}
+					lenV := ir.ResolveCell(side[1])
+					if sub, isBin := lenV.(*ssa.BinOp); isBin && (sub.Op == token.ADD || sub.Op == token.SUB) {
+						if _, isK := ir.ConstInt(sub.Y); isK {
+							lenV = ir.ResolveCell(sub.X)
+						}
+					}
+					call, isCall := lenV.(*ssa.Call)
+					if !isCall {
+						continue
+					}
+					if bi, isB := call.Call.Value.(*ssa.Builtin); !isB || bi.Name() != "len" {
+						continue
+					}
+					base, f, ok := nodeSliceRoot(call.Call.Args[0])
+					if !ok {
+						continue
+					}
+					e2, nodeLd := entryOfNode(base)
+					if e2 == nil {
+						continue // a node that was not read out of a path entry (just loaded, a parameter): nothing to relate
+					}
+					e1 := li.X.(*ssa.FieldAddr).X
+					n++
+					pos := P.InstrPos(bin)
+					what := fmt.Sprintf("%s compared with len(%s.%s) in %s", pathDesc(ir.Sym(li)), pathDesc(ir.Sym(base)), f, ir.FuncName(fn))
+					r1, r2 := ir.ResolveCell(e1), ir.ResolveCell(e2)
+					same := r1 == r2
+					why := "position and node are read through the same entry pointer"
+					if !same && ir.Sym(r1) == ir.Sym(r2) {
+						same, why = true, "position and node are read from the same element expression, the path slice unchanged in between"
+						for _, st := range pathStores {
+							if ir.InstrReaches(nodeLd, st) && ir.InstrReaches(st, bin) && !ir.InstrReaches(st, nodeLd) {
+								same = false
+							}
+						}
+					}
+					if same {
+						c.OK(pos, what, why, false)
+					} else {
+						c.Violation(fn, pos, "position of one path entry compared with the node of another",
+							fmt.Sprintf("the position is read from %s but the node whose %s list is measured was read from %s: after the entry pointer moved (a pop, a push) the two belong to different levels, so the cursor pops past keys that are still to come or stops on a slot that has no key",
+								pathDesc(ir.Sym(r1)), f, pathDesc(ir.Sym(r2))))
+					}
+				}
+			}
+		}
+	}
+	if n == 0 {
+		c.AnchorMissing("comparison of a path position with its node's list length in the Cursor methods")
+	}
+}
